@@ -11,9 +11,9 @@ def run(ctx):
     ctx.assumptions += ["gzip is exercised, not modelled (File is the identity on content in the specification)",
                         "zero-progress reads (n = 0, nil) are outside the io.Reader contract and not generated",
                         "the clause 'well-formed input decodes to Denote(input)' is discharged per format by the read events of C01-C05"]
-    ctx.model_check("MC_Stream", "MC_Stream_t" if thorough else "MC_Stream_q", workers=16, heap="8g")
+    ctx.model_check("MC_Stream", "MC_Stream_t7" if thorough else "MC_Stream_t", workers=16, heap="12g", timeout=3400)
     if thorough:
-        cross.leg(ctx, "delivery-drive", [60, 90])
+        cross.leg(ctx, "delivery-drive", [250, 500])
     else:
         cross.leg(ctx, "delivery-drive", [8, 12])
     ctx.exhaustive = True
